@@ -5,9 +5,24 @@ pub mod cssgen;
 
 pub mod c01;
 pub mod c02;
+pub mod c03;
+pub mod c04;
+pub mod c10;
+pub mod c11;
+pub mod c13;
+pub mod c15;
 
 use crate::run::Monitor;
 
 pub fn all() -> Vec<&'static Monitor> {
-    vec![&c01::MONITOR, &c02::MONITOR]
+    vec![
+        &c01::MONITOR,
+        &c02::MONITOR,
+        &c03::MONITOR,
+        &c04::MONITOR,
+        &c10::MONITOR,
+        &c11::MONITOR,
+        &c13::MONITOR,
+        &c15::MONITOR,
+    ]
 }
